@@ -231,8 +231,72 @@ def random_case(rng: typing.Any) -> dict[str, typing.Any]:
     }
 
 
+def run_tls_strays(ctx: Ctx, rec: Recorder) -> None:
+    """The checkout probe on real TLS sockets: unsolicited bytes that arrive (encrypted, still in the kernel buffer) on
+    an idle keep-alive connection must make the pool discard it, for TLS 1.2 and TLS 1.3 alike."""
+    import ssl
+    import time
+    import warnings
+
+    import urllib3
+
+    from vf import tlsnet
+
+    certs = tlsnet.Certs()
+    try:
+        for max_tls in (None, ssl.TLSVersion.TLSv1_2):
+            for kind in ("response", "garbage"):
+                for method in ("GET", "HEAD"):
+                    for retries in (False, 2):
+                        case = {"tls_stray": kind, "max_tls": str(max_tls), "method": method, "retries": retries}
+                        rec.case(["tls-stray", kind, str(max_tls), method, retries])
+                        rec.mon("tls_idle_stray")
+                        cfg = {"role": "origin", "tls": ("exact", "trusted"), "stray_after_request": 1, "stray_kind": kind}
+                        plain = {"role": "origin", "tls": ("exact", "trusted")}  # only the first connection misbehaves
+                        with tlsnet.TLSNet(lambda i: cfg if i == 0 else plain, certs) as net, warnings.catch_warnings():
+                            warnings.simplefilter("ignore")
+                            net.listener.max_tls = max_tls
+                            pool = urllib3.HTTPSConnectionPool("good.test", 443, ca_certs=certs.ca_file, maxsize=1, retries=retries)
+                            out = []
+                            try:
+                                r = pool.urlopen(method, "/stray/1", retries=retries)
+                                out.append((r.status, r.data))
+                                # the stray record arrives while the connection is idle in the pool: wait until the server
+                                # has written it (no verdict on wall-clock guesses), then a moment for loopback delivery
+                                t_end = time.monotonic() + 5.0
+                                while time.monotonic() < t_end and not (net.listener.log and net.listener.log[0].get("stray_sent")):
+                                    time.sleep(0.005)
+                                if not (net.listener.log and net.listener.log[0].get("stray_sent")):
+                                    rec.count("tls_stray_never_sent")
+                                    pool.close()
+                                    continue
+                                time.sleep(0.05)
+                                for i in (2, 3):
+                                    try:
+                                        r = pool.urlopen("GET", f"/clean/{i}", retries=retries)
+                                        out.append((r.status, r.data))
+                                    except urllib3.exceptions.HTTPError as e:
+                                        out.append(("urllib3-error", type(e).__name__.encode()))
+                            except Exception as e:  # noqa: BLE001
+                                rec.fail(case, "non-urllib3-exception", {"exc": type(e).__name__}, f"{type(e).__name__}: {e!s:.100}")
+                                pool.close()
+                                continue
+                            pool.close()
+                            net.wait_quiet(1.5)
+                        for i, (st, data) in zip((2, 3), out[1:]):
+                            if st == "urllib3-error":
+                                continue
+                            if data != f"origin:/clean/{i}".encode():
+                                rec.fail(case, "foreign-bytes-delivered", {"rid": f"clean/{i}", "got": data[:60], "foreign": "stray", "tls": True, "version": str(max_tls)}, f"request /clean/{i} over TLS was handed {data[:60]!r}")
+                                break
+    finally:
+        certs.close()
+
+
 def run_shard(ctx: Ctx, rec: Recorder) -> None:
     rng = ctx.rng
+    if ctx.shard == ctx.nshards - 1:
+        run_tls_strays(ctx, rec)
     idx = 0
     # (i) exhaustive length-2 histories over the behaviour alphabets
     stride = ctx.pick(3, 1)
